@@ -344,11 +344,12 @@ for cls, mod in (('Socket', 'socket'), ('AsyncSocket', 'async_socket')):
               "reads == old(reads) + [int(environ.get('CONTENT_LENGTH', '0'))] and "
               "int(environ.get('CONTENT_LENGTH', '0')) <= self.server.max_http_buffer_size",
               props=['C14'])
-    c.ensures('at-most-16-packets', 'len(received) <= len(old(received)) + 16', props=['C14', 'C02'])
+    c.ensures('at-most-16-packets', 'len(received) <= len(old(received)) + 16',
+              props=['C14', 'C02', 'C10'])
     c.ensures('events-only-grow', 'grows(events, old(events))')
     c.ensures('spawned-only-grow', 'grows(spawned, old(spawned))')
     c.ensures('received-in-order', 'received[0:len(old(received))] == old(received)',
-              props=['C04'])
+              props=['C04', 'C10'])
     c.ensures('queue-wf', 'self.queue.unf >= len(self.queue.items)')
     c.modifies(*POST_MOD)
     c.loop(0, index='i', invariants=[
